@@ -122,8 +122,8 @@ def run(ck):
     lines.append("1 2 2 30000 | main=join;s1=try:1:n,count;s2=try:2:n,count | replay main*point:call s1*create s2*create s1* s2*")
     #   StopComplete (RecheckShutdown=FALSE): SChk(s1) MDrainBegin MDrainPoll MSdSet WExitShutdown MSdPoll MJoin SCrit(s1): a submitter that
     #   passed the lock-free checks is held right before it takes the mutex while stop() runs to completion
-    lines.append("1 2 2 30000 | main=stop,join;s1=try:1:n | replay main*point:call s1*lock main*point:call w1* main*point:call w1* main*point:call s1* main* w2* main*")
-    lines.append("1 2 2 30000 | main=stop,join;s1=enq:1:n,fut:2:n | replay main*point:call s1*lock main*point:call w1* main*point:call w1* main*point:call s1* main* w2* main*")
+    lines.append("1 2 2 30000 | main=stop,join;s1=try:1:n | replay main*point:call s1*lock w1* main main*point:call w1* main*point:call w1* main*point:call s1* w2* main* w2* main*")
+    lines.append("1 2 2 30000 | main=stop,join;s1=enq:1:n,fut:2:n | replay main*point:call s1*lock w1* main main*point:call w1* main*point:call w1* main*point:call s1* w2* main* w2* main*")
     ck.sample({"kind": "directed probe (TLC counterexample of DtorJoinsAfterStop=FALSE)", "case": lines[-4]})
     # idle exits racing submissions: a lazily growing pool (0 initial workers, at most 1) and timed waits that may expire while
     # submitters are runnable
@@ -137,6 +137,16 @@ def run(ck):
     if rc != 0:
         raise vf.Infra("drv_s_pool failed: " + out[-2000:])
     judge(ck, outp, lines, "random")
+    # did the directed probes reach their window?  (recorded, not demanded: a changed tree may take other steps)
+    execs = vf.split_executions(vf.read_ndjson(outp))
+    for i, ln in enumerate(lines):
+        if "s1*lock" in ln and i < len(execs):
+            names = [(e["e"], e.get("op"), e.get("t")) for e in execs[i][1]]
+            try:
+                hit = names.index(("LifeRet", "stop", None)) < names.index(("SubmitRet", None, "s1"))
+            except ValueError:
+                hit = False
+            ck.note("directed probe %r: submission held across stop() = %s" % (ln.split("|")[1].strip(), hit))
     # ---- real pool: preemption-bounded DFS
     dfs = [(cases[0], 1, 2500), (cases[1], 1, 2500)] if not thorough else [(c, 2, 40000) for c in cases[:6]]
     for j, (case, bound, maxexec) in enumerate(dfs):
